@@ -19,7 +19,7 @@ import random
 from gx.props import _hist
 
 PROP = "C29"
-PROFILE = {"summary": 5, "add_formula_column": 8, "add_ref_column": 3, "side_effect_formula": 4, "add_record": 12,
+PROFILE = {"summary": 5, "add_formula_column": 8, "add_ref_column": 3, "side_effect_formula": 8, "add_record": 12,
            "update_record": 10, "remove_record": 5, "rename_column": 2, "modify_type": 2, "malformed": 1,
            "undo_earlier": 1}
 CFG = {"oracles": (), "n_bundles": 10, "profile": PROFILE, "hook": "gx.props.c29.install", "tie": False}
@@ -36,6 +36,13 @@ def g_side_effect_formula(self, w):
   if not c1 or not c2:
     return None
   a, b = self.rng.choice(c1), self.rng.choice(c2)
+  nums = [c for c in w.data_cols(t) if c["type"] in ("Int", "Numeric")]
+  if nums and self.rng.random() < 0.5:
+    # a trigger formula that RAISES for some rows (division by a cell that is often 0) and is not re-run when
+    # its input is edited later: the stored cell keeps the old error while a fresh evaluation succeeds
+    x = self.rng.choice(nums)["colId"]
+    return ["AddColumn", t["tableId"], self.new_name(),
+            {"type": "Any", "isFormula": False, "formula": "10 / $%s + 1 / ($%s - 1)" % (x, x), "recalcWhen": 0}]
   f = "%s.lookupOrAddDerived(%s=$%s).id" % (t2["tableId"], b["colId"], a["colId"])
   if self.rng.random() < 0.5:
     # trigger formula: evaluated for new records only, so after $a is edited the derived record is
@@ -44,7 +51,38 @@ def g_side_effect_formula(self, w):
   return ["AddColumn", t["tableId"], self.new_name(), {"type": "Any", "isFormula": True, "formula": f}]
 
 
+def setup_left_over_errors(h):
+  """Set-up bundles: a data column with a trigger formula that raises for some new records; then the inputs of
+  some of those records are edited (the trigger does not run again), so their cells hold errors 'left over
+  from before' while a fresh evaluation of the formula succeeds."""
+  from gx.gen_hist import World
+  rng, gen = h.rng, h.gen
+  w = World(h.doc)
+  ts = w.user_tables()
+  if not ts:
+    return
+  t = rng.choice(ts)
+  nums = [c for c in w.data_cols(t) if c["type"] in ("Int", "Numeric")]
+  if not nums:
+    name = gen.new_name()
+    yield [["AddColumn", t["tableId"], name, {"type": "Int", "isFormula": False}]]
+    x = name
+  else:
+    x = rng.choice(nums)["colId"]
+  f = gen.new_name()
+  yield [["AddColumn", t["tableId"], f, {"type": rng.choice(["Any", "Numeric", "Text"]), "isFormula": False,
+                                          "formula": "10 / $%s + 1 / ($%s - 1)" % (x, x), "recalcWhen": 0}]]
+  k = rng.randint(3, 5)
+  yield [["BulkAddRecord", t["tableId"], [None] * k, {x: [rng.choice([0, 1, 0, 5]) for _ in range(k)]}]]
+  w = World(h.doc)
+  rows = w.tables[t["tableId"]]["rows"][-k:]
+  for r in rng.sample(rows, min(len(rows), rng.randint(1, 3))):
+    yield [["UpdateRecord", t["tableId"], r, {x: rng.choice([5, 7, 0, 1])}]]
+
+
 def install(h, cfg):
+  if h.rng.random() < 0.4:
+    h.setup = setup_left_over_errors
   from gx.gen_hist import Gen
   Gen.g_side_effect_formula = g_side_effect_formula     # gen_hist.py only has a stub
   h.extra_oracles.append(probe)
@@ -69,9 +107,22 @@ def _count_reverts():
   E._c29_counted = True
 
 
+def full_encoding(doc):
+  """Every cell of every table exactly as it is sent to Node (objtypes.encode_object), error messages and
+  details included - the canonical snapshot keeps only the error class."""
+  import objtypes
+  out = {}
+  for tid in doc.table_ids():
+    td = doc.engine.fetch_table(tid, formulas=True)
+    out[tid] = json.dumps([list(td.row_ids), {c: [objtypes.encode_object(v) for v in vals] for c, vals in td.columns.items()}],
+                          sort_keys=True, default=repr)
+  return out
+
+
 def probe(h, rec):
   _count_reverts()
   reverts0 = _reverts[0]
+  full0 = full_encoding(h.doc)
   from gx import engine_driver as ed
   from gx.gen_hist import World
   import formula_prompt
@@ -81,6 +132,15 @@ def probe(h, rec):
   tables = list(w.tables.values())
   if not tables:
     return
+  import objtypes
+  errcells = []
+  for t in tables:
+    tab = eng.tables.get(t["tableId"])
+    for c in w.visible_cols(t):
+      if c["formula"] and tab is not None and tab.has_column(c["colId"]):
+        col = tab.get_column(c["colId"])
+        errcells += [(t["tableId"], c["colId"], r) for r in t["rows"] if isinstance(col.raw_get(r), objtypes.RaisedException)]
+  h.stats["probe_error_cells"] = h.stats.get("probe_error_cells", 0) + len(errcells)
   for _ in range(6):
     t = rng.choice(tables)
     tid = t["tableId"]
@@ -98,6 +158,10 @@ def probe(h, rec):
         calls.append(kind); eng.fetch_table(tid, query={c["colId"]: [1, "x", None, [1], rng.randint(0, 5)]})
       elif kind == "fetch_meta":
         calls.append(kind); eng.fetch_meta_tables(formulas=rng.random() < 0.5)
+      elif kind == "formula_error" and errcells and rng.random() < 0.6:
+        # a cell that HOLDS an error (e.g. left over by a trigger formula that has not run since)
+        (etid, ecol, erow) = rng.choice(errcells)
+        calls.append("%s %s.%s[%s]" % (kind, etid, ecol, erow)); eng.get_formula_error(etid, ecol, erow)
       elif kind == "formula_error" and fcols:
         c = rng.choice(secols if secols and rng.random() < 0.6 else fcols)
         calls.append("%s %s.%s[%s]" % (kind, tid, c["colId"], row)); eng.get_formula_error(tid, c["colId"], row)
@@ -124,6 +188,12 @@ def probe(h, rec):
     what = "formula evaluation with a side effect" if any(c.startswith(("formula_error", "evaluate")) for c in calls) else "read-only call"
     h._find(PROP, "tables changed by a %s (%s differs)" % (what, d[0].split(" ")[0]), "; ".join(d[:3]) + " after " + "; ".join(calls), rec,
             {"calls": calls})
+  if not d:
+    full1 = full_encoding(doc)
+    chg = sorted(t for t in full0 if full0[t] != full1.get(t))
+    if chg:
+      h._find(PROP, "encoded cells changed by a read-only call although the canonical values are equal (error message / details)",
+              "tables %r after %s" % (chg, "; ".join(calls)), rec, {"calls": calls})
   c = h._raw([["Calculate"]])
   if not c.ok:
     h._find(PROP, "Calculate fails after read-only calls: " + c.error[0], c.error[1], rec, {"calls": calls})
